@@ -24,6 +24,19 @@ CLAIMED = {
  'C05': dict(text='Proof (Coq): the Welch-Satterthwaite loop of the model returns (sum v)^2/sum v^2/nu for any number of independent inputs with any mix of finite/infinite dof (NaN iff variance 0, inf iff no finite-dof term), and inf with the LPU variance when every influence has infinite dof. The ensemble/complex-pair case analysis of the loop (faithfully modelled, incl. its assertion paths) is tied to lib.py by bit-exact correspondence and compared with an exact group specification by the oracle; Willink-Hall: oracle only. Three grouping defects for complex inputs are known findings.',
              note='Coq kernel, Reals axioms, correspondence harness; the group theorem for ensembles is not proved (partial).',
              technique='Coq proof (induction on the component list) for the independent case + bit-exact correspondence of the full loop model', ref='6 C05'),
+
+ 'C12': dict(text='Proof (Coq), any N>=2 and M: estimate = mean, s/sqrt N, N-1 (complex: 2x2 covariance of the mean); mean/standard_deviation/standard_uncertainty/variance_covariance_complex agree; multi_estimate_real u_k u_l r_kl = S_kl/(N(N-1)) incl. the cv != 0 guard, |r|<=1; for any linear combination of the returned numbers value/LPU variance/dof equal those of the combined sample (kernel LPU and single-ensemble W-S facts as named hypotheses); estimate_digitized >= s/sqrt N. Formula bodies regenerated from type_a.py each run. multi_estimate_complex full matrix, ucomplex data, labels: correspondence only (partial). Two refuted cases are known findings.',
+             note='Coq kernel, Reals axioms/classic/funext, translator tools/tr_type_a_est.py, bit-exact correspondence (compensated builtin sum modelled).',
+             technique='Coq proof (list induction, Cauchy-Schwarz) over translator-generated formulas + bit-exact correspondence', ref='6 C12'),
+ 'C13': dict(text='Proof (Coq), any N>=3: whenever an OLS/WLS/RWLS fit returns, (a,b) solve the (weighted) normal equations, the uncertainties and correlation are sigma^2 (X^T W X)^-1, ssr is the weighted residual sum, dof rule N-2/given/inf; uniqueness; RWLS with equal scale factors = OLS; totality for N>=3; value/u of each prediction input. Formula bodies regenerated from type_a.py, statement-level comparison of the rest. Equivariance proved for OLS values only; prediction dof, label-independence, WTLS wrapper: correspondence/oracle (partial). WLS/RWLS y_from_x TypeError and RWLS scale are refuted (known findings).',
+             note='Coq kernel, Reals axioms/classic/funext, translator tools/tr_type_a_fit.py, bit-exact correspondence on top of the kernel state machine; type_b.line_fit_wtls as oracle.',
+             technique='Coq proof (field algebra on sums, list induction) over translator-generated formulas + bit-exact correspondence', ref='6 C13'),
+ 'C15': dict(text='Proof (Coq), all sizes: matmul/dot equal the sum-of-products definition, transpose only permutes, arguments unchanged; forward/back substitution solves a x = b given P a = L U; dual numbers (value + component map) form a commutative ring and every ring identity transfers to value and every component; kernel ureal + - * / are the dual-number operations. P a = L U for ludcmp (hence solve/inv), determinant cofactors, inv(a) a = I, complex elements: hypothesis / correspondence / oracle (partial). Zero-valued rhs shortcut refuted with a dual-number witness (known finding).',
+             note='Coq kernel, Reals axioms for the ureal link, funext; faithful LU model executed on int/float/ureal elements bit-exactly against numpy-object arrays.',
+             technique='Coq proof (induction on N over an abstract commutative ring; dual-number transfer) + bit-exact correspondence', ref='6 C15'),
+ 'C19': dict(text='Proof (Coq) over bodies of k_factor, k2_factor_sq, k_to_dof, k2_to_dof, _df_k2 regenerated from reporting.py each run: RuntimeError iff out of range; k_factor is the two-sided quantile of any symmetric cdf whose one-sided quantiles the scipy oracles are; k2_factor_sq = df((1-p)^(-2/(df-1))-1) = 2df/(df-1) x F(2,df-1) quantile, increasing in p, decreasing in df, limit -2ln(1-p) with a bound on the jump at the switch; fn = 0 in _df_k2 iff k2^2 = k2_factor_sq(nu2+1); bracket logic; round trip for k2. Student-t inverse pair and monotonicity of the t quantile: oracle hypotheses (partial). p-range of k2_factor_sq refuted (known finding).',
+             note='Coq kernel, Reals axioms/classic/funext (+ constructive_indefinite_description in non-vacuity examples); scipy.special/ridder as Section variables (oracles); translator tools/tr_reporting.py.',
+             technique='Coq proof (real analysis with Coquelicot, MVT/IVT) over translator-generated bodies + correspondence with scipy results as oracle table', ref='6 C19'),
 }
 NA_REASON = 'machinery for this property is not built yet in this revision (planned: see DESIGN.md section 6); not claimed until its check exists'
 m = {
